@@ -33,6 +33,19 @@ def evOf? : Term → Option Ev
   | .list [.atom "drop", p, f] => do pure (.drop (← peerOf? p) (← famOf? f))
   | _ => none
 
+def evT : Ev → Term
+  | .rd (.est p fs) => tag "est" [nat p, ofList nat fs]
+  | .rd (.eor p f) => tag "eor" [nat p, nat f]
+  | .rd (.wd p) => tag "wd" [nat p]
+  | .rd .timer => sym "timer"
+  | .ins p f n => tag "ins" [nat p, nat f, nat n]
+  | .rm p f n => tag "rm" [nat p, nat f, nat n]
+  | .drop p f => tag "drop" [nat p, nat f]
+
+def caseT (cfg : Cfg) (evs : List Ev) : Term :=
+  list [sym "case", tag "peers" (cfg.peers.map fun e => list [nat e.1, ofList nat e.2]),
+        tag "dur" [opt nat cfg.dur], tag "evs" (evs.map evT)]
+
 def cfgPeerOf? : Term → Option (Peer × List Fam)
   | .list [p, fs] => do pure ((← peerOf? p), (← asListOf? famOf? fs))
   | _ => none
